@@ -234,8 +234,11 @@ def probe_mocking():
             builtins_ok = builtins_ok and _same(before, after2, "builtins")
         res["stopRestores"] = restored
         # empty stacks
-        while sb._current_patches:
+        for _ in range(8):               # bounded: a `_stop_patches` that never pops must not hang the check
+            if not sb._current_patches:
+                break
             sb._stop_patches()
+        del sb._current_patches[:]
         sb._current_stdout.clear()
         try:
             sb._stop_patches()
